@@ -13,7 +13,8 @@ import numpy as np
 from . import tables as T
 
 ID = 'C11'
-RULE = ('one table 1..5 x 1..5 (values counts/small/signed/dyadic/big, every metadata kind, layout recipe), both axes; '
+RULE = ('one table 1..5 x 1..5 (values counts/small/signed/dyadic/big, every metadata kind, layout recipe; a quarter with '
+        'falsy-looking ids 0, blank, False, None), both axes; '
         'partition: labelling by id hash (mod 1..4), by metadata value (entries may lack the key -> None), constant, '
         'falsy labels that are not None (0, False, 0.0, empty text, empty list) with ignore_none on and off, '
         'injective, list-valued, None for a residue class, labels equal as dict keys (1 / 1.0), dict id->label '
@@ -145,8 +146,16 @@ def make_gen(case):
 
 
 # ---------------------------------------------------------------- generation
+FALSY_IDS = ['0', ' ', 'False', 'None', '0.0', '[]']        # valid non-empty ids that look falsy ('' is outside C01)
+
+
 def _spec(rng, md=None, values=None):
     s = T.rand_spec(rng, max_r=5, max_c=5, md=md, values=values)
+    if rng.random() < 0.25:
+        pool = list(FALSY_IDS)
+        rng.shuffle(pool)
+        for key in ('oids', 'sids'):
+            s[key] = [pool.pop() if pool and rng.random() < 0.4 else i for i in s[key]]
     return s
 
 
